@@ -1325,7 +1325,7 @@ def _install_docinfo_listener(drv):
 
 # `{include}` / `{literalinclude}` need files.  Witness texts name them through the placeholder INC_DIR; `produce`
 # (so: search and replay alike) replaces it by a directory the harness fills on first use and removes at exit:
-# docutils backend - /verif/.scratch-c03inc-<pid> (absolute path: the source of a docutils case is "<string>");
+# docutils backend - /verif/.scratch-c03inc-<pid>-* (absolute path: the source of a docutils case is "<string>");
 # Sphinx backend - `c03inc` inside the scratch source directory of the in-process application.
 INC_DIR = "@C03INC@"
 INC_FILES = {
@@ -1348,8 +1348,8 @@ def _inc_dir(backend):
         d, name = os.path.join(L.SphinxDriver.get().src, "c03inc"), "c03inc"
         os.makedirs(d, exist_ok=True)        # removed with the driver's scratch directory
     else:
-        d = name = os.path.join(_VERIF, ".scratch-c03inc-%d" % os.getpid())
-        os.makedirs(d, exist_ok=False)       # ours alone: never reuse / remove somebody else's directory
+        import tempfile
+        d = name = tempfile.mkdtemp(prefix=".scratch-c03inc-%d-" % os.getpid(), dir=_VERIF)   # ours alone
         atexit.register(shutil.rmtree, d, True)
     for fn, content in INC_FILES.items():
         with open(os.path.join(d, fn), "w", encoding="utf-8") as f:
